@@ -39,7 +39,8 @@ CaseOK(c) ==
 \* disagreements that carry the signature of a recorded known finding (decided from the case, spec side)
 KnownCase(c) ==
   CASE c.kind = "re" -> IF StringObsOK_D14(c) THEN "D14" ELSE IF StringObsOK_D12(c) THEN "D12"
-                        ELSE IF StringObsOK_D17(c) THEN "D17" ELSE "none"
+                        ELSE IF StringObsOK_D17(c) THEN "D17" ELSE IF StringObsOK_D40(c) THEN "D40" ELSE "none"
+    [] c.kind = "matches" -> IF MatchesOK_D40(c) THEN "D40" ELSE "none"
     [] c.kind = "cond" -> IF HasUndefQuant(c.ast, c.env, NoLoc) THEN "D15"
                         ELSE IF HasUndefRange(c.ast, c.env, NoLoc) THEN "D19" ELSE "none"
     [] OTHER -> "none"
